@@ -16,6 +16,11 @@ package main
 //        expect W       where is W now: done | checked | parked | stuck
 //                       stuck = still asleep although the counter is 0 and no CeaseVigil is in
 //                       flight (observed with a watchdog; the only way out is a new operation)
+//        holdmu / freemu  the harness itself takes / releases the vigil's condition mutex; `cease` and `wait` issued in
+//                       between line up on it (`queued`) and get it in that order when it is released (Go hands a
+//                       starving mutex over FIFO) — this reaches the window between a waiter's check and its Lock
+//        closefail      Close() of a swamp instance whose chronicler fails its final Close(); does a
+//                       WaitForGracefulClose caller get its answer?
 //        rpcs           a few real gateway RPCs (one of them panics and is recovered), then the
 //                       safeops counter and the swamp's vigil counter are read
 // reply: <event> v=<counter> hc=<CeaseVigil stopped before Broadcast> bc=<CeaseVigil blocked on the mutex> w=[c|p|d…]
@@ -27,13 +32,18 @@ import (
 	"bufio"
 	"context"
 	"fmt"
+	"errors"
 	"math/rand"
+	"os"
 	"strconv"
 	"strings"
 	"sync"
 	"sync/atomic"
 	"time"
 
+	"github.com/hydraide/hydraide/app/core/hydra/swamp"
+	"github.com/hydraide/hydraide/app/core/hydra/swamp/chronicler"
+	"github.com/hydraide/hydraide/app/core/hydra/swamp/metadata"
 	"github.com/hydraide/hydraide/app/core/hydra/swamp/vigil"
 	"github.com/hydraide/hydraide/app/name"
 	"github.com/hydraide/hydraide/app/verifhook"
@@ -62,6 +72,8 @@ type c17World struct {
 	ceaseWG   sync.WaitGroup
 	ceaseFin  atomic.Int64 // CeaseVigil calls that have returned
 	broken    bool
+	muRelease func()   // non-nil: the harness holds the condition mutex
+	muQueue   []string // what lined up on it meanwhile: "c" or a waiter number
 }
 
 var c17BrokenCases int
@@ -155,6 +167,9 @@ func (w *c17World) waitLockFree(d time.Duration) bool {
 	return true
 }
 
+// stateNoLock is state() while the harness itself holds the mutex (the counter is read atomically).
+func (w *c17World) stateNoLock() string { return w.state() }
+
 func (w *c17World) state() string {
 	var b strings.Builder
 	for _, x := range w.waiters {
@@ -176,7 +191,7 @@ func (w *c17World) afterBroadcast() string {
 		return ""
 	}
 	if vigil.VerifCount(w.v) <= 0 {
-		deadline := time.After(400 * time.Millisecond)
+		deadline := time.After(1500 * time.Millisecond) // returns as soon as they are back
 		for _, x := range asleep {
 			select {
 			case <-x.done:
@@ -189,7 +204,7 @@ func (w *c17World) afterBroadcast() string {
 		return ""
 	}
 	for range asleep {
-		if !w.waitEvent("checked", 400*time.Millisecond) {
+		if !w.waitEvent("checked", 1500*time.Millisecond) {
 			w.timeout()
 			return " unwoken"
 		}
@@ -247,12 +262,47 @@ func (w *c17World) cleanup() {
 	}
 }
 
+// a chronicler whose final Close() fails
+type c17FailingChronicler struct{ chronicler.Chronicler }
+
+func (c17FailingChronicler) Close() error { return errors.New("injected: final flush failed") }
+
+// c17CloseFail closes a real swamp instance (persistent, V2 chronicler in a temp dir) whose chronicler
+// reports an error from its final Close(), then asks WaitForGracefulClose with a 500 ms budget.
+func c17CloseFail() string {
+	dir, err := os.MkdirTemp("", "hvc17-")
+	if err != nil {
+		return "closefail setup-error"
+	}
+	defer os.RemoveAll(dir)
+	nm := name.New().Sanctuary("c17").Realm("closefail").Swamp("one")
+	ch := chronicler.NewV2WithName(dir+"/swamp", 2, nm.Get())
+	ch.CreateDirectoryIfNotExists()
+	inst := swamp.New(nm, time.Hour, &swamp.FilesystemSettings{ChroniclerInterface: c17FailingChronicler{ch}, WriteInterval: time.Second},
+		func(*swamp.Event) {}, func(*swamp.Info) {}, func(name.Name) {}, metadata.NewNoop())
+	fin := make(chan struct{})
+	go func() { inst.Close(); close(fin) }()
+	select {
+	case <-fin:
+	case <-time.After(3 * time.Second):
+		return "closefail close-hangs"
+	}
+	ctx, cancel := context.WithTimeout(context.Background(), 500*time.Millisecond)
+	defer cancel()
+	if err := inst.WaitForGracefulClose(ctx); err != nil {
+		// make sure the instance's goroutines end anyway
+		inst.Destroy()
+		return "closefail stuck"
+	}
+	return "closefail returned"
+}
+
 func init() {
 	Register("C17", Domain{Gen: genC17, Run: runC17})
 }
 
 func genC17(rng *rand.Rand, tier string, w *bufio.Writer) {
-	cases, maxLen := 140, 14
+	cases, maxLen := 100, 14
 	if tier == "thorough" {
 		cases, maxLen = 1500, 30
 	}
@@ -261,8 +311,11 @@ func genC17(rng *rand.Rand, tier string, w *bufio.Writer) {
 	fmt.Fprintln(w, "case 0\nbegin\nwait\ncease\nbcast\nwgo 1\nexpect 1\nbcast\nexpect 1")
 	fmt.Fprintln(w, "case 1\nbegin\nbegin\nwait\ncease\nbcast\nwgo 1\nexpect 1\ncease\nbcast\nexpect 1")
 	fmt.Fprintln(w, "case 2\nbegin\nwait\nwgo 1\nexpect 1\ncease\nexpect 1\nbcast\nexpect 1\nwait\nexpect 2")
-	fmt.Fprintln(w, "case 3\nrpcs")
-	for c := 4; c < cases; c++ {
+	fmt.Fprintln(w, "case 3\nrpcs\nclosefail")
+	// the last operation ends while a waiter is on its way to the mutex: with check and sleep decided under the mutex it returns
+	fmt.Fprintln(w, "case 4\nbegin\nholdmu\ncease\nwait\nfreemu\nbcast\nwgo 1\nexpect 1")
+	fmt.Fprintln(w, "case 5\nbegin\nbegin\nholdmu\nwait\ncease\nfreemu\nwgo 1\nbcast\ncease\nbcast\nexpect 1")
+	for c := 6; c < cases; c++ {
 		fmt.Fprintf(w, "case %d\n", c)
 		n := 4 + rng.Intn(maxLen)
 		waiters, open, held := 0, 0, 0
@@ -360,10 +413,78 @@ func runC17(in *bufio.Scanner, out *bufio.Writer) {
 			fmt.Fprintln(out, "broken")
 			continue
 		}
+		if w.muRelease != nil && f[0] != "begin" && f[0] != "cease" && f[0] != "wait" && f[0] != "freemu" && f[0] != "case" {
+			fmt.Fprintln(out, "busy")
+			continue
+		}
 		switch f[0] {
 		case "case":
 			install()
 			fmt.Fprintln(out, line)
+		case "holdmu":
+			if w.lockHeld() {
+				fmt.Fprintln(out, "busy")
+				break
+			}
+			w.muRelease = vigil.VerifHoldLock(w.v)
+			fmt.Fprintln(out, "holdmu "+w.stateNoLock())
+		case "freemu":
+			if w.muRelease == nil {
+				fmt.Fprintln(out, "skip")
+				break
+			}
+			time.Sleep(5 * time.Millisecond) // everybody in the line has starved for > 1 ms: FIFO hand-over
+			rel := w.muRelease
+			w.muRelease = nil
+			w.mu.Lock()
+			w.holdCheck = true // a waiter from the line is stopped after its (next) positive check
+			w.mu.Unlock()
+			rel()
+			var res []string
+			for _, who := range w.muQueue {
+				if who == "c" && w.lockHeld() {
+					// a waiter from the line now sits, stopped, inside the mutex: this CeaseVigil stays behind it
+					res = append(res, "c:blocked")
+					continue
+				}
+				if who == "c" {
+					if w.waitEvent("dec", 3*time.Second) {
+						w.heldC++
+						w.blockedC--
+						res = append(res, "c:held")
+					} else {
+						w.timeout()
+						res = append(res, "c:timeout")
+					}
+					continue
+				}
+				n, _ := strconv.Atoi(who)
+				x := w.waiters[n-1]
+				select {
+				case <-x.done:
+					x.state = 'd'
+					res = append(res, who+":done")
+				case ev := <-w.events:
+					if ev == "checked" {
+						x.state = 'c'
+						res = append(res, who+":checked")
+					} else {
+						res = append(res, who+":"+ev)
+					}
+				case <-time.After(3 * time.Second):
+					w.timeout()
+					res = append(res, who+":timeout")
+				}
+			}
+			w.mu.Lock()
+			if !w.lockHeld() {
+				w.holdCheck = false
+			}
+			w.mu.Unlock()
+			w.muQueue = nil
+			fmt.Fprintf(out, "freemu %s %s\n", strings.Join(res, " "), w.state())
+		case "closefail":
+			fmt.Fprintln(out, c17CloseFail())
 		case "begin":
 			w.v.BeginVigil()
 			w.open++
@@ -377,12 +498,18 @@ func runC17(in *bufio.Scanner, out *bufio.Writer) {
 			w.ceaseWG.Add(1)
 			go func(v vigil.Vigil, cw *c17World) { defer cw.ceaseWG.Done(); v.CeaseVigil(); cw.ceaseFin.Add(1) }(w.v, w)
 			d := 3 * time.Second
-			if w.lockHeld() {
-				d = 60 * time.Millisecond // with the mutex around the decrement it cannot get there now
+			if w.lockHeld() || w.muRelease != nil {
+				d = 100 * time.Millisecond // with the mutex around the decrement it cannot get there now
 			}
 			res := "held"
 			if w.waitEvent("dec", d) {
 				w.heldC++
+			} else if w.muRelease != nil {
+				w.blockedC++
+				w.muQueue = append(w.muQueue, "c")
+				res = "queued"
+				fmt.Fprintf(out, "cease %s %s\n", res, w.stateNoLock())
+				break
 			} else if w.lockHeld() {
 				w.blockedC++
 				res = "blocked"
@@ -420,7 +547,7 @@ func runC17(in *bufio.Scanner, out *bufio.Writer) {
 			res := w.afterBroadcast()
 			fmt.Fprintf(out, "bcast%s %s\n", res, w.state())
 		case "wait":
-			if w.lockHeld() {
+			if w.lockHeld() || (w.muRelease != nil && len(w.muQueue) > 0 && w.muQueue[len(w.muQueue)-1] != "c") {
 				fmt.Fprintln(out, "busy")
 				break
 			}
@@ -430,6 +557,19 @@ func runC17(in *bufio.Scanner, out *bufio.Writer) {
 			w.holdCheck = true
 			w.mu.Unlock()
 			go func(v vigil.Vigil) { v.WaitForActiveVigilsClosed(); close(x.done) }(w.v)
+			if w.muRelease != nil {
+				// it lines up on the mutex the harness holds (a real waiter takes the mutex before it checks)
+				select {
+				case <-x.done:
+					x.state = 'd'
+					fmt.Fprintf(out, "wait %d done %s\n", x.n, w.stateNoLock())
+				case <-time.After(100 * time.Millisecond):
+					x.state = 'q'
+					w.muQueue = append(w.muQueue, strconv.Itoa(x.n))
+					fmt.Fprintf(out, "wait %d queued %s\n", x.n, w.stateNoLock())
+				}
+				break
+			}
 			res := ""
 			deadline := time.After(3 * time.Second)
 		loop:
@@ -583,11 +723,45 @@ func c17Rpcs() string {
 			note(r, e)
 		}
 	}
+	// a Delete that empties a swamp: the swamp method gives the handler's vigil back itself and destroys
+	// the instance; the handler's deferred CeaseVigil then runs once more on the dead instance
+	dead := "unknown"
+	{
+		sw2 := name.New().Sanctuary("c17").Realm("handlers").Swamp("two")
+		r, e := rig.GW.PatchTreasures(ctx, &hydrapb.PatchTreasuresRequest{IslandID: 1, SwampName: sw2.Get(), CreateIfNotExist: true,
+			Patches: []*hydrapb.TreasurePatch{{Key: "only", Ops: []*hydrapb.PatchOp{{Op: hydrapb.PatchOp_SET, Path: "a", Value: val}}}}})
+		if r == nil {
+			note(nil, e)
+		} else {
+			note(r, e)
+		}
+		if inst, err := rig.Zeus.GetHydra().SummonSwamp(ctx, 1, sw2); err == nil {
+			fin := make(chan struct{})
+			go func() {
+				d, e := rig.GW.Delete(ctx, &hydrapb.DeleteRequest{Swamps: []*hydrapb.DeleteRequest_SwampKeys{{IslandID: 1, SwampName: sw2.Get(), Keys: []string{"only"}}}})
+				if d == nil {
+					note(nil, e)
+				} else {
+					note(d, e)
+				}
+				close(fin)
+			}()
+			select {
+			case <-fin:
+				dead = strconv.FormatInt(swamp.VerifVigilCount(inst), 10)
+			case <-time.After(3 * time.Second):
+				// the handler is stuck in Destroy's drain, waiting for its own vigil
+				dead = "hang"
+				inst.CeaseVigil()
+				<-fin
+			}
+		}
+	}
 	sys := rig.Zeus.GetSafeops().SystemLocked()
 	vig := "unknown"
 	if s, err := rig.Zeus.GetHydra().SummonSwamp(ctx, 1, sw); err == nil {
 		vig = strconv.FormatBool(s.HasActiveVigils())
 	}
 	_ = nils
-	return fmt.Sprintf("rpcs calls=%d sys=%v vig=%s", calls, sys, vig)
+	return fmt.Sprintf("rpcs calls=%d sys=%v vig=%s vigdead=%s", calls, sys, vig, dead)
 }
